@@ -35,7 +35,9 @@ type C11Case struct {
 	WhiteSpace string    `json:"ws"`
 	Align      string    `json:"align"`
 	Indent     int       `json:"indent"`
-	Anywhere   bool      `json:"anywhere,omitempty"` // overflow-wrap:anywhere
+	Anywhere   bool      `json:"anywhere,omitempty"` // overflow-wrap:anywhere (or break-word: the same for line breaking)
+	BreakWord  bool      `json:"break_word,omitempty"`
+	BareSpans  bool      `json:"bare_spans,omitempty"` // simple paragraph whose words are wrapped in spans without decoration
 	Engine     string    `json:"engine"`
 }
 
@@ -51,6 +53,11 @@ func c11Gen(t *rapid.T, tier Tier) interface{} {
 	simple := rapid.IntRange(0, 4).Draw(t, "simple") < 2
 	if simple && rapid.Bool().Draw(t, "anywhere") {
 		c.Anywhere = true
+		c.BreakWord = rapid.Bool().Draw(t, "breakword")
+	}
+	if simple {
+		// spans without margin, border or padding change nothing to the lines
+		c.BareSpans = rapid.IntRange(0, 2).Draw(t, "bare") == 0
 	}
 	total := 0
 	for i := 0; i < n; i++ {
@@ -69,6 +76,10 @@ func c11Gen(t *rapid.T, tier Tier) interface{} {
 				total += (it.Len+1)*c.FontSize + 2*it.L
 				continue
 			}
+		}
+		if c.BareSpans && depth < 1 && rapid.IntRange(0, 2).Draw(t, "bareopen") == 0 { // (flat: nested inline boxes have listed findings of their own)
+			c.Items = append(c.Items, C11Item{Kind: "open"})
+			depth++
 		}
 		it := C11Item{Kind: "w", Len: rapid.SampledFrom([]int{1, 2, 2, 3, 3, 4, 5, 7, 12}).Draw(t, "wlen")}
 		total += (it.Len + 1) * c.FontSize
@@ -124,7 +135,9 @@ func c11Build(c *C11Case) (string, []c11Unit) {
 	var b strings.Builder
 	fs := float64(c.FontSize)
 	fmt.Fprintf(&b, `<!DOCTYPE html><html><head><style>@page{size:9000px 100000px;margin:0} html,body{margin:0;padding:0;display:block} p{display:block;margin:0} span{display:inline}</style></head><body><p id="t" style="font:%dpx/%s Ahem;width:%dpx;white-space:%s;text-align:%s;text-indent:%dpx`, c.FontSize, c.LineHeight, c.Width, c.WhiteSpace, c.Align, c.Indent)
-	if c.Anywhere {
+	if c.BreakWord {
+		b.WriteString(";overflow-wrap:break-word")
+	} else if c.Anywhere {
 		b.WriteString(";overflow-wrap:anywhere")
 	}
 	b.WriteString(`">`)
